@@ -23,7 +23,7 @@ func init() {
 	core.Register(&core.Property{
 		ID:         "C17",
 		Exhaustive: true,
-		Rule:       "exhaustive: every evaluate-option list of length 0..4 over {valid System value, valid FHIR element, valid collection, duplicate name, predefined names context/ucum, unsupported type, unsupported type nested in a collection, collection nested in a collection, nil, OverrideTime} in every order, and every compile-option list of length 0..3 (thorough: 4) over {well-typed function, typed-argument function, wrong first parameter, wrong results, variadic, zero-argument, existing built-in name, duplicate custom name, non-function, WithExperimentalFuncs, Permissive} in every order; with an instrumented custom function that counts its invocations and records what it received; programs referencing each variable at the root, inside function arguments and inside where/select criteria. distinct_nontrivial = distinct option lists containing at least one failing option or two interacting options",
+		Rule:       "exhaustive: every evaluate-option list of length 0..4 over {valid System value, valid FHIR element, valid collection, duplicate name, predefined names context/ucum, unsupported type, unsupported type nested in a collection, collection nested in a collection, nil, OverrideTime} in every order, and every compile-option list of length 0..3 (thorough: 4) over {well-typed function, typed-argument function, wrong first parameter, wrong results, variadic, zero-argument, existing built-in name, duplicate custom name, non-function, WithExperimentalFuncs, Permissive} in every order; with an instrumented custom function that counts its invocations and records what it received; programs referencing each variable at the root, inside function arguments and inside where/select criteria, and repeatedly around filters / sub-setting of the same variable; nested and repeated invocations of the instrumented function. distinct_nontrivial = distinct option lists containing at least one failing option or two interacting options",
 		Assumptions: []string{"when several options fail, the returned error must match at least one of the failing options' sentinel errors",
 			"variadic custom functions are outside the 'fixed parameter list' contract: only totality is required"},
 		Run:    runC17,
@@ -215,6 +215,21 @@ func c17EvalList(env *core.Env, kinds []string) {
 		check("%c.count()", system.Collection{system.Integer(3)}, "collection-spliced")
 		check("%c[2]", system.Collection{c17Name}, "collection-spliced")
 		check("%context.select(%c).count()", system.Collection{system.Integer(3)}, "select-criterion")
+		// referenced again after having been filtered / sub-set / projected: still the supplied value
+		check("%c.where($this is System.String).count() + %c.count()", system.Collection{system.Integer(4)}, "referenced-twice")
+		check("%c.where($this is System.String)", system.Collection{system.String("x")}, "filtered")
+		check("%c", c17Coll, "after-filtering")
+		check("%c.tail().where($this is System.String).count() + %c.skip(1).count() + %c.take(1).count()", system.Collection{system.Integer(4)}, "referenced-twice")
+		check("%c.select($this).exists($this is System.Integer) and %c.first() = 1", system.Collection{system.Boolean(true)}, "referenced-twice")
+		check("%c", c17Coll, "after-filtering")
+		env.Cover("variable-referenced-twice")
+		if len(c17Coll) != 3 || c17Coll[0] != system.Integer(1) || c17Coll[1] != system.String("x") || c17Coll[2] != any(c17Name) {
+			env.Violatef("C17/variable/supplied-collection-modified", "the collection supplied as %%c was modified by evaluation: now %s", fx.Render(c17Coll).T)
+			c17Coll = system.Collection{system.Integer(1), system.String("x"), c17Name}
+		}
+	}
+	if !failing {
+		check("%context.where(false).count() + %context.count() + %context.where(true).count()", system.Collection{system.Integer(2)}, "context-referenced-twice")
 	}
 }
 
@@ -405,6 +420,36 @@ func c17Contract(env *core.Env) {
 	rr = fx.Eval(env, "Patient.three(1 + 1, 'z')", one, co, nil)
 	if p.calls != 1 || len(p.args) != 1 || p.args[0][0] != system.Integer(2) || p.args[0][1] != system.String("z") {
 		env.Violatef("C17/custom/wrong-arguments", "`Patient.three(1 + 1, 'z')`: calls=%d args=%v (%s)", p.calls, p.args, trunc(rr.Short(), 80))
+	}
+	// a call nested in the argument of a call of the same function, and two calls in one program: every invocation
+	// receives its own input and its own evaluated arguments
+	*p = c17Probe{}
+	rr = fx.Eval(env, "Patient.name[0].two(%context.name[1].two('in').first() & '-out')", one, co, nil)
+	if p.calls != 2 || len(p.args) != 2 || len(p.inputs) != 2 {
+		env.Violatef("C17/custom/nested-call-count", "nested two(two(..)): calls=%d", p.calls)
+	} else {
+		if p.args[0][0] != system.String("in") || p.args[1][0] != system.String("in-out") {
+			env.Violatef("C17/custom/nested-wrong-arguments", "nested two(two('in') & '-out'): the invocations received %v and %v, expected 'in' then 'in-out'", p.args[0], p.args[1])
+		}
+		ok1, _ := sameItems(p.inputs[0], system.Collection{pat.Name[1]})
+		ok2, _ := sameItems(p.inputs[1], system.Collection{pat.Name[0]})
+		if !ok1 || !ok2 {
+			env.Violatef("C17/custom/nested-wrong-input", "nested two(two(..)): the inner invocation must receive name[1] and the outer one name[0]; received %s and %s", fx.Render(p.inputs[0]).T, fx.Render(p.inputs[1]).T)
+		}
+	}
+	env.Cover("custom-nested")
+	*p = c17Probe{}
+	rr = fx.Eval(env, "Patient.three(1, %context.three(2, 'b').last().toString() & 'c').last()", one, co, nil)
+	if p.calls != 2 || len(p.args) != 2 || p.args[0][0] != system.Integer(2) || p.args[0][1] != system.String("b") || p.args[1][0] != system.Integer(1) || p.args[1][1] != system.String("bc") {
+		env.Violatef("C17/custom/nested-wrong-arguments", "three(1, three(2,'b').last() & 'c'): calls=%d args=%v", p.calls, p.args)
+	}
+	if it, ok := rr.Single(); !ok || it.T != "bc" {
+		env.Violatef("C17/custom/nested-wrong-result", "three(1, three(2,'b').last() & 'c').last() => %s, expected 'bc'", trunc(rr.Short(), 100))
+	}
+	*p = c17Probe{}
+	rr = fx.Eval(env, "Patient.name[0].one().count() + Patient.name.one().count()", one, co, nil)
+	if it, ok := rr.Single(); !ok || it.T != "3" || p.calls != 2 {
+		env.Violatef("C17/custom/two-calls", "`name[0].one().count() + name.one().count()` => %s with %d calls, expected 3 with 2", trunc(rr.Short(), 100), p.calls)
 	}
 	// argument of the wrong type / multi-item / empty: error, function not called
 	for _, src := range []string{"Patient.two(1)", "Patient.two(Patient.name.given)", "Patient.two({})", "Patient.three('z', 1)"} {
